@@ -531,3 +531,155 @@ silent("c20-silent-rename-fuse-locals", ["C20"], TRF,
 silent("c20-silent-reads-order", ["C20"], STF,
        "result = get_vars(self.rhs) | get_vars(self.lhs)",
        "result = get_vars(self.lhs) | get_vars(self.rhs)")
+
+# ---------------------------------------------------------------------------
+# C06 / C07
+# ---------------------------------------------------------------------------
+SF = "pymbolic/mapper/stringifier.py"
+PF = "pymbolic/parser.py"
+IA = "pymbolic/interop/ast.py"
+
+fire("c06-printer-sum-product-swapped", ["C06"], SF,
+     "PREC_PRODUCT = 12\nPREC_SUM = 11\n", "PREC_PRODUCT = 11\nPREC_SUM = 12\n",
+     "T/roundtrip/")
+fire("c06-quotient-no-forced-parens", ["C06"], SF,
+     "    def map_quotient(self, expr, enclosing_prec, *args, **kwargs):\n"
+     "        kwargs[\"force_parens_around\"] = self.multiplicative_primitives\n",
+     "    def map_quotient(self, expr, enclosing_prec, *args, **kwargs):\n",
+     "T/roundtrip/Quotient")
+fire("c06-shift-no-plus-one", ["C06"], SF,
+     "                self.format(\"%s << %s\",\n"
+     "                    self.rec(expr.shiftee, PREC_SHIFT+1, *args, **kwargs),\n"
+     "                    self.rec(expr.shift, PREC_SHIFT+1, *args, **kwargs)),",
+     "                self.format(\"%s << %s\",\n"
+     "                    self.rec(expr.shiftee, PREC_SHIFT, *args, **kwargs),\n"
+     "                    self.rec(expr.shift, PREC_SHIFT, *args, **kwargs)),",
+     "T/roundtrip/LeftShift")
+fire("c06-negative-constant-threshold", ["C06"], SF,
+     "                and (enclosing_prec > PREC_SUM):",
+     "                and (enclosing_prec > PREC_CALL):",
+     "NegInt")
+fire("c06-revert-power-base", ["C06"], SF,
+     "self.rec(expr.base, PREC_POWER+1, *args, **kwargs),",
+     "self.rec(expr.base, PREC_POWER, *args, **kwargs),",
+     "T/roundtrip/Power.base<-Power")
+fire("c06-if-children-at-none", ["C06"], SF,
+     "                    self.rec(expr.then, PREC_LOGICAL_OR, *args, **kwargs),\n"
+     "                    self.rec(expr.condition, PREC_LOGICAL_OR, *args, **kwargs),\n"
+     "                    self.rec(expr.else_, PREC_LOGICAL_OR, *args, **kwargs)),\n"
+     "                enclosing_prec, PREC_IF)\n\n    def map_if_positive",
+     "                    self.rec(expr.then, PREC_NONE, *args, **kwargs),\n"
+     "                    self.rec(expr.condition, PREC_NONE, *args, **kwargs),\n"
+     "                    self.rec(expr.else_, PREC_NONE, *args, **kwargs)),\n"
+     "                enclosing_prec, PREC_IF)\n\n    def map_if_positive",
+     "T/roundtrip/If")
+fire("c06-comparison-operator-dropped", ["C06"], SF,
+     "                    expr.operator,\n"
+     "                    self.rec(expr.right, PREC_COMPARISON+1, *args, **kwargs)),\n"
+     "                enclosing_prec, PREC_COMPARISON)\n\n    def map_logical_not",
+     "                    \"==\",\n"
+     "                    self.rec(expr.right, PREC_COMPARISON+1, *args, **kwargs)),\n"
+     "                enclosing_prec, PREC_COMPARISON)\n\n    def map_logical_not",
+     "T/")
+fire("c06-xor-printed-as-or", ["C06"], SF,
+     "                    \" ^ \", expr.children, PREC_BITWISE_XOR, *args, **kwargs),\n"
+     "                enclosing_prec, PREC_BITWISE_XOR)\n\n    def map_bitwise_and",
+     "                    \" | \", expr.children, PREC_BITWISE_XOR, *args, **kwargs),\n"
+     "                enclosing_prec, PREC_BITWISE_XOR)\n\n    def map_bitwise_and",
+     "T/")
+fire("c0607-parser-shift-above-plus", ["C06", "C07"], PF,
+     "_PREC_SHIFT = 205", "_PREC_SHIFT = 215", "T/")
+fire("c0607-parser-power-left-assoc", ["C06", "C07"], PF,
+     "            left_exp = primitives.Power(\n"
+     "                    left_exp, self.parse_expression(pstate, _PREC_TIMES))",
+     "            left_exp = primitives.Power(\n"
+     "                    left_exp, self.parse_expression(pstate, _PREC_POWER))",
+     "T/")
+fire("c07-parser-minus-not-negated", ["C07"], PF,
+     "                left_exp = primitives.Sum((left_exp, -right_exp))  # pylint:disable=invalid-unary-operand-type",
+     "                left_exp = primitives.Sum((left_exp, right_exp))",
+     "T/pygrammar/")
+fire("c0607-parser-comparison-swapped", ["C06", "C07"], PF,
+     "            left_exp = Comparison(\n                    left_exp,\n"
+     "                    self._COMP_TABLE[next_tag],\n"
+     "                    self.parse_expression(pstate, _PREC_COMPARISON))",
+     "            left_exp = Comparison(\n"
+     "                    self.parse_expression(pstate, _PREC_COMPARISON),\n"
+     "                    self._COMP_TABLE[next_tag],\n                    left_exp)",
+     "")
+fire("c07-lexer-less-before-lessequal", ["C07"], PF,
+     "            (_lessequal, pytools.lex.RE(r\"\\<=\")),\n"
+     "            (_greaterequal, pytools.lex.RE(r\"\\>=\")),\n"
+     "            # must be before\n"
+     "            (_less, pytools.lex.RE(r\"\\<\")),\n",
+     "            (_less, pytools.lex.RE(r\"\\<\")),\n"
+     "            (_lessequal, pytools.lex.RE(r\"\\<=\")),\n"
+     "            (_greaterequal, pytools.lex.RE(r\"\\>=\")),\n",
+     "T/lexer/")
+fire("c07-lexer-keyword-no-boundary", ["C07"], PF,
+     "            (_or, pytools.lex.RE(r\"or\\b\")),",
+     "            (_or, pytools.lex.RE(r\"or\")),",
+     "T/lexer/literal:order")
+fire("c07-comp-table-wrong", ["C06", "C07"], PF,
+     "            _lessequal: \"<=\",", "            _lessequal: \"<\",", "T/")
+fire("c07-revert-xor-level", ["C07"], PF,
+     "_PREC_BITWISE_XOR = 120", "_PREC_BITWISE_XOR = 110", "T/pygrammar/a | b ^ c")
+fire("c07-revert-else-operand", ["C06", "C07"], PF,
+     "else_expr = self.parse_expression(pstate, _PREC_IF_ELSE)",
+     "else_expr = self.parse_expression(pstate)", "T/")
+fire("c07-leftover-input-accepted", ["C07"], PF,
+     "        if not pstate.is_at_end():\n"
+     "            pstate.raise_parse_error(\"leftover input after completed parse\")\n",
+     "", "P/Parser.__call__/whole-input")
+fire("c07-positional-after-keyword", ["C07"], PF,
+     "                if kwargs:\n"
+     "                    pstate.raise_parse_error(\n"
+     "                            \"positional argument after keyword \"\n"
+     "                            \"argument not allowed\")\n\n", "",
+     "P/parse_arglist/positional-after-keyword")
+fire("c07-importer-add-swapped", ["C07"], IA,
+     "def _add(x, y):\n    return p.Sum((x, y))", "def _add(x, y):\n    return p.Sum((y, x))",
+     "T/importer/bin_op_map/Add")
+fire("c07-importer-div-is-floordiv", ["C07"], IA,
+     "            ast.Div: p.Quotient,", "            ast.Div: p.FloorDiv,",
+     "T/importer/bin_op_map/Div")
+fire("c07-importer-lt-as-le", ["C07"], IA,
+     "            ast.Lt: \"<\",", "            ast.Lt: \"<=\",",
+     "T/importer/comparison_op_map/Lt")
+fire("c07-importer-ifexp-swapped", ["C07"], IA,
+     "return p.If(self.rec(expr.test), self.rec(expr.body), self.rec(expr.orelse))",
+     "return p.If(self.rec(expr.test), self.rec(expr.orelse), self.rec(expr.body))",
+     "T/importer/map_IfExp")
+fire("c07-revert-importer-invert", ["C07"], IA,
+     "            ast.Invert: p.BitwiseNot,", "            ast.Invert: _neg,",
+     "T/importer/unary_op_map/Invert")
+fire("c07-revert-importer-bitor", ["C07"], IA,
+     "            ast.BitOr: _bitwise_or,", "            ast.BitOr: p.BitwiseOr,",
+     "T/importer/bin_op_map/BitOr")
+# not behaviour-preserving: '(c + d) + b' reparses to a flat sum that prints
+# differently, which the property's last sentence forbids
+fire("c06-paren-if-ge", ["C06"], SF,
+     "        if enclosing_prec > my_prec:\n            return f\"({s})\"",
+     "        if enclosing_prec >= my_prec:\n            return f\"({s})\"",
+     "T/roundtrip/Sum.children[0]<-Sum")
+silent_multi("c07-silent-parser-renumber", ["C06", "C07"], PF,
+             [("_PREC_COMMA = 5 ", "_PREC_COMMA = 50 "), ("_PREC_SLICE = 10", "_PREC_SLICE = 100"),
+              ("_PREC_IF_ELSE = 70 ", "_PREC_IF_ELSE = 700 "), ("_PREC_IF = 75", "_PREC_IF = 750"),
+              ("_PREC_LOGICAL_OR = 80", "_PREC_LOGICAL_OR = 800"),
+              ("_PREC_LOGICAL_AND = 90", "_PREC_LOGICAL_AND = 900"),
+              ("_PREC_LOGICAL_NOT = 95", "_PREC_LOGICAL_NOT = 950"),
+              ("_PREC_COMPARISON = 100", "_PREC_COMPARISON = 1000"),
+              ("_PREC_BITWISE_OR = 110", "_PREC_BITWISE_OR = 1100"),
+              ("_PREC_BITWISE_XOR = 120", "_PREC_BITWISE_XOR = 1200"),
+              ("_PREC_BITWISE_AND = 130", "_PREC_BITWISE_AND = 1300"),
+              ("_PREC_SHIFT = 205", "_PREC_SHIFT = 2050"), ("_PREC_PLUS = 210", "_PREC_PLUS = 2100"),
+              ("_PREC_TIMES = 220", "_PREC_TIMES = 2200"), ("_PREC_UNARY = 225", "_PREC_UNARY = 2250"),
+              ("_PREC_POWER = 230", "_PREC_POWER = 2300"), ("_PREC_CALL = 250", "_PREC_CALL = 2500")])
+silent("c07-silent-flatten-spelling", ["C06", "C07"], PF,
+       "            if isinstance(left_exp, primitives.Product):\n"
+       "                left_exp = primitives.Product((*left_exp.children, right_exp))",
+       "            if isinstance(left_exp, primitives.Product):\n"
+       "                left_exp = primitives.Product(left_exp.children + (right_exp,))")
+silent("c06-silent-format-spelling", ["C06"], SF,
+       "                self.format(\"%s**%s\",",
+       "                \"{}**{}\".format(")
